@@ -81,6 +81,9 @@ impl Inst {
     /// A copy made through `Clone::clone` of the scanner type itself (not the bitwise `Copy`).
     #[allow(clippy::clone_on_copy)]
     pub fn cloned(&self) -> Inst {
+        // whatever the code under test reads from the clock while cloning is this instance's time
+        #[cfg(helgoboss_midi_verif)]
+        verif_hooks::set_now(self.now);
         let sc = match &self.sc {
             Scanner::Cc14(s) => Scanner::Cc14(Clone::clone(s)),
             Scanner::Pn(s) => Scanner::Pn(Clone::clone(s)),
@@ -201,6 +204,8 @@ impl Inst {
 
     /// `self == new(same timeout)` through the public PartialEq.
     pub fn eq_new(&self) -> bool {
+        #[cfg(helgoboss_midi_verif)]
+        verif_hooks::set_now(self.now);
         let fresh = Inst::new(self.kind(), self.to, false);
         self.sc == fresh.sc
     }
